@@ -132,3 +132,19 @@ fn(A + 'operator=', TU, sig='&(const base_array<', key='base_array::operator=(co
 fn(A + 'operator=', TU, sig='&(base_array<', key='base_array::operator=(move)', serves=['C03'],
    returns_ref='this', assigns=['this._vec', 'rhs._vec'],
    ensures=[('moved', 'this == old.rhs')])
+
+# join a sequence of arrays (include/dsplib/utils.h): lengths add, elements in order, empty arguments contribute nothing
+for T, key in (('dsplib::base_array<dsplib::real_t>', 'real'), ('dsplib::base_array<dsplib::cmplx_t>', 'cmplx')):
+    fn('dsplib::concatenate', 'drivers/instantiate.cpp', sig='(const %s &' % T, key='concatenate<%s>' % key,
+       serves=['C03', 'C05'], pure=True,
+       requires=[('size', 'a1.len + a2.len + a3.len + a4.len + a5.len <= INT_MAX')], throws='False',
+       lets={'o2': 'a1.len', 'o3': 'a1.len + a2.len', 'o4': 'a1.len + a2.len + a3.len', 'o5': 'a1.len + a2.len + a3.len + a4.len'},
+       ensures=[('length', 'result.len == a1.len + a2.len + a3.len + a4.len + a5.len'),
+                ('part1', 'forall(lambda k: Implies(And(0 <= k, k < a1.len), result[k] == a1[k]))'),
+                ('part2', 'forall(lambda k: Implies(And(0 <= k, k < a2.len), result[o2 + k] == a2[k]))'),
+                ('part3', 'forall(lambda k: Implies(And(0 <= k, k < a3.len), result[o3 + k] == a3[k]))'),
+                ('part4', 'forall(lambda k: Implies(And(0 <= k, k < a4.len), result[o4 + k] == a4[k]))'),
+                ('part5', 'forall(lambda k: Implies(And(0 <= k, k < a5.len), result[o5 + k] == a5[k]))')],
+       loops={3: {'inv': [('pr', 'And(pr.off == pre.pr.off + i, pa.off == 0)'), ('rlen', 'r.len == pre.r.len'),
+                          ('copied', 'forall(lambda t: Implies(And(0 <= t, t < i), r[pre.pr.off + t] == array.target[t]))'),
+                          ('others', 'forall(lambda t: Implies(And(0 <= t, t < r.len, Or(t < pre.pr.off, t >= pre.pr.off + i)), r[t] == pre.r[t]))')]}})
